@@ -27,7 +27,7 @@ SPEC["C01"] = {
 CLAIMS["C01"] = {
     "technique": "reference-model runtime monitor: real compiler + real client validators vs. an independent three-valued TypeScript membership model, on generated programs x (members, one-edit mutants, hostile values); violations localised by re-execution",
     "text": "Every generated (program, parser, value) triple is compiled by the real extract+emit_code, loaded against the real client runtime and judged against an independent reference interpreter of the TypeScript subset. "
-            "Held means: no disagreement outside the recorded known findings on ~6e5 (quick) / ~1.5e7 (thorough) judged pairs; reach is bounded by the generator grammar and the reference's specified region. A table of source-text probes (one program per repaired defect or documented refusal, with the values that told the behaviours apart and TypeScript's verdict) is judged in every run, so that a regression of a repaired defect is found whatever the random streams produce.",
+            "Held means: no disagreement outside the recorded known findings on ~3.5e6 (quick) / ~1.5e7 (thorough) judged pairs; reach is bounded by the generator grammar and the reference's specified region. A table of source-text probes (one program per repaired defect or documented refusal, with the values that told the behaviours apart and TypeScript's verdict) is judged in every run, so that a regression of a repaired defect is found whatever the random streams produce.",
     "note": TRUST_REF,
 }
 
@@ -89,7 +89,7 @@ CLAIMS["C04"] = {
     "technique": "fault monitors around the real compiler (catch_unwind + panic-location hook, per-thread CPU-time watchdog, worker-death detection with gdb stack naming) + range checker of every diagnostic against the file text + load / reference-closure walk of every success",
     "text": "Every request runs extract+emit_code on a fresh 64 MB-stack thread under catch_unwind; a panic, a killed worker, >20 s CPU (re-checked alone with 60 s), an emit error without diagnostic, "
             "a diagnostic whose file/line/column is not inside the project text, an unlocated diagnostic for a file that parses, a module that does not load, a missing parser or a dangling RefRuntype is a violation. "
-            "Totality is approximated by absence of failures on ~1.2e4 (quick) / 6e5 (thorough) hostile programs; the evidence lists the diagnostic kinds and outcomes actually observed. Three enumerated grids are judged as well: (container of a self-reference) x (type operator), (empty or collapsing type) x (position), and (enum member form) x (use) x (import style) for an enum declared in a module much longer than the entry file, where every diagnostic must lie inside the file it names. A worker death counts only if the request dies again alone in a fresh process; its stack is read with gdb (retried). Further grids: pairs / triples of recursive types that each go through a semantic operator in one build, and JSDoc blocks whose frame is made of every kind of white space.",
+            "Totality is approximated by absence of failures on ~7e5 (quick) / 6e6 (thorough) hostile programs; the evidence lists the diagnostic kinds and outcomes actually observed. Three enumerated grids are judged as well: (container of a self-reference) x (type operator), (empty or collapsing type) x (position), and (enum member form) x (use) x (import style) for an enum declared in a module much longer than the entry file, where every diagnostic must lie inside the file it names. A worker death counts only if the request dies again alone in a fresh process; its stack is read with gdb (retried). Further grids: pairs / triples of recursive types that each go through a semantic operator in one build, and JSDoc blocks whose frame is made of every kind of white space.",
     "note": "Bounded progress only (20 s / 60 s CPU). Nesting depth of generated input is small, so a stack overflow can only come from unbounded recursion. Native build stands for wasm (A1); module loading through the cjs-style assembly, ESM import for a sample.",
 }
 
